@@ -10,6 +10,9 @@
 (*  Part 3  what a chain must prove (Closed, Covers).                      *)
 (*  Part 4  the RtypeBitmapBuilder (34-octet blocks, compaction) against   *)
 (*          the RFC 4034 4.1.2 encoding of a set of types.                 *)
+(*  Part 5  the Flags octet of the NSEC3 parameters (Opt-Out is the least  *)
+(*          significant BIT), the accessors, and the configuration machine *)
+(*          (new(params) + setters) that decides about the exclusion.      *)
 (*                                                                         *)
 (* A zone is a set of records [n |-> owner (absolute, case as written),    *)
 (* t |-> type]; record data does not matter here.  The NSEC3 hash is an    *)
@@ -387,4 +390,65 @@ BmFinalize(buf, src) ==               \* src 0-based start of the next block
   IF src >= Len(buf) THEN <<>>
   ELSE SubSeq(buf, src + 1, src + buf[src + 2] + 2) \o BmFinalize(buf, src + 34)
 BmBuild(ts) == BmFinalize(BmAddAll(<<>>, ts), 0)
+--------------------------------------------------------------------------
+(* Part 5: the Flags octet of the NSEC3 parameters and the configuration   *)
+(* that decides about Opt-Out.                                             *)
+(*                                                                         *)
+(* RFC 5155 3.1.2 / 3.2: Flags is one octet of eight one-bit flags; the    *)
+(* Opt-Out flag is the least significant bit (3.1.2.1), the other seven    *)
+(* are undefined.  GenerateNsec3Config::params ("hash algorithm, flags,    *)
+(* iterations and salt") is the caller's Nsec3param: the octet is copied   *)
+(* verbatim into every NSEC3 RR; with_opt_out() sets the bit and leaves    *)
+(* the other seven alone.  Whether Opt-Out "is being used" (7.1) is the    *)
+(* BIT of the octet the NSEC3 RRs carry, whatever the other bits are: a    *)
+(* chain that leaves insecure delegations out is only sound when its RRs   *)
+(* advertise Opt-Out (RFC 5155 6), and a configuration that asks for the   *)
+(* exclusion (the default once Opt-Out is on) gets it whenever they do.    *)
+
+FlagOctets == 0..255
+FBit(f, i) == (f \div Pow2(i)) % 2
+And8(a, b) ==
+  FoldL(LAMBDA acc, i : acc + Pow2(i) * FBit(a, i) * FBit(b, i), 0, <<0, 1, 2, 3, 4, 5, 6, 7>>)
+Or8(a, b) ==
+  FoldL(LAMBDA acc, i : acc + Pow2(i) * (IF FBit(a, i) + FBit(b, i) > 0 THEN 1 ELSE 0), 0,
+        <<0, 1, 2, 3, 4, 5, 6, 7>>)
+\* declarative (RFC 5155 3.1.2.1)
+OptOutBit(f) == f % 2 = 1
+\* the accessors as src/rdata/nsec3.rs writes them
+OPT_OUT_MASK == 1
+ParamOptOutFlag(f) == And8(f, OPT_OUT_MASK) = OPT_OUT_MASK       \* Nsec3param::opt_out_flag
+Nsec3OptOut(f) == And8(f, 1) # 0                                  \* Nsec3::opt_out
+SetOptOutFlag(f) == Or8(f, OPT_OUT_MASK)                          \* Nsec3param::set_opt_out_flag
+FlagLaws ==
+  \A f \in FlagOctets :
+    /\ ParamOptOutFlag(f) = OptOutBit(f) /\ Nsec3OptOut(f) = OptOutBit(f)
+    /\ SetOptOutFlag(f) \in FlagOctets /\ OptOutBit(SetOptOutFlag(f))
+    /\ SetOptOutFlag(f) \div 2 = f \div 2                         \* the other seven bits stay
+    /\ (OptOutBit(f) => SetOptOutFlag(f) = f)
+
+\* GenerateNsec3Config: new(params) (DNSKEY assumed, exclusion on once
+\* Opt-Out is) followed by public setter calls
+CfgNew(f) == [flags |-> f, excl |-> TRUE, assume |-> TRUE]
+CfgSet(cfg, s) ==
+  CASE s = "opt_out" -> [cfg EXCEPT !.flags = SetOptOutFlag(@)]
+    [] s = "no_exclude" -> [cfg EXCEPT !.excl = FALSE]
+    [] s = "no_dnskey" -> [cfg EXCEPT !.assume = FALSE]
+    [] OTHER -> cfg                           \* TTL modes: not part of the chain
+CfgRun(f, script) == FoldL(CfgSet, CfgNew(f), script)
+\* generate_nsec3s: exclude_owner_names_of_unsigned_delegations
+GenExcludes(cfg) == ParamOptOutFlag(cfg.flags) /\ cfg.excl
+\* declarative: Opt-Out is being used iff the RRs will carry the bit
+DeclExcludes(cfg) == OptOutBit(cfg.flags) /\ cfg.excl
+\* the Flags field of every generated NSEC3 RR
+EmittedFlags(cfg) == cfg.flags
+\* RFC 5155 6: an insecure delegation may be without an NSEC3 RR only under
+\* NSEC3 RRs with Opt-Out set; and the configured exclusion takes place
+\* whenever the RRs say Opt-Out.  chainOwners: names with an NSEC3 RR.
+OptOutConsistent(cfg, insecure, chainOwners) ==
+  /\ (insecure \ chainOwners # {}) => OptOutBit(EmittedFlags(cfg))
+  /\ (OptOutBit(EmittedFlags(cfg)) /\ cfg.excl) => insecure \cap chainOwners = {}
+\* The NSEC3PARAM RR at the apex: RFC 5155 4.1.2 wants a Flags field of zero
+\* (Opt-Out "is not used and is set to zero", the rest reserved), the
+\* library hands back the configured parameters; both are admitted here.
+ParamFlagsAllowed(cfg) == {0, cfg.flags}
 =============================================================================
